@@ -13,6 +13,7 @@ R5 mtbl_dump filter truth table.
 R6 emptiness witness: the quantity block_builder_empty tests is emptied by reset and grows by a
    provably positive amount on every path of block_builder_add (else a block is silently skipped).
 D  rests on: C20 (every byte the writer produces must reach the file whatever write(2) does); C16 (lengths and offsets in the file are written and read with these codecs) - re-run here as <id>.D.<rule>.
+R7 container contract (rules/vecrule.py): libmy/vector.h keeps its invariants, element preservation, post-conditions and memory safety in every scenario (every buffer of the writer and the block builder is one of these vectors).
 """
 import re
 from .common import *
@@ -254,6 +255,10 @@ def run(ctx, res):
     # ---- properties this one rests on (re-run here, labelled <this>.D.<rule>) ------------------
     depends(ctx, res, 'C20', None, 'every byte the writer produces must reach the file whatever write(2) does')
     depends(ctx, res, 'C16', None, 'lengths and offsets in the file are written and read with these codecs')
+
+    # ---- container contract ---------------------------------------------------------------------
+    from . import vecrule
+    vecrule.check(ctx, res, "C01.R7")
 
 GROW = {"ubuf_advance": 1, "ubuf_append": 2, "ubuf_add": None}
 SHRINK = ("ubuf_reset", "ubuf_clip", "ubuf_detach", "ubuf_destroy")
